@@ -50,6 +50,8 @@ structure Sess where
   mapping : Mapping := .shared
   closed : Bool := false
   removeOnDrop : Bool := false
+  /-- how many times the backing memory was released (`Memory::unmount` executions) -/
+  released : Nat := 0
   deriving Inhabited
 
 def Sess.find (x : Sess) (h : Nat) : Option Handle := (x.handles.find? (·.1 == h)).map (·.2)
@@ -68,11 +70,26 @@ def Sess.init (o : Opts) : Option Sess :=
 /-- the file as the page cache holds it right now -/
 def Sess.file (x : Sess) : FileSys := if x.closed then x.fs else fileView x.cfg x.st x.mapping x.fs
 
+/-- the reference count drops by one; the holder that brings it to zero runs `unmount` -/
+def Sess.decRef (x : Sess) : Sess :=
+  let r := x.refs - 1
+  { x with refs := r, released := if x.refs = 1 then x.released + 1 else x.released }
+
+/-- `Arena::clone` -/
+def Sess.cloneArena (x : Sess) (id : Nat) : Sess := { x with arenas := id :: x.arenas, refs := x.refs + 1 }
+
+/-- drop of a plain arena value -/
+def Sess.dropArena (x : Sess) (id : Nat) : Sess :=
+  if x.arenas.contains id then ({ x with arenas := x.arenas.erase id }).decRef else x
+
 /-- register the handle produced by an allocation call -/
 def Sess.addHandle (x : Sess) (id : Nat) (m : Option Meta) (k : HKind) (owned : Bool) : Sess :=
   let h : Handle := { mt := m.getD Meta.null, kind := k, owned := owned, null := m.isNone }
   let x := x.put id h
   if h.holdsArena then { x with refs := x.refs + 1 } else x
+
+/-- is the value of a `needs_drop` type dropped by the drop of this handle -/
+def Handle.dropsValue (h : Handle) (detached : Bool) : Bool := h.kind == .slot && !detached && !h.null
 
 /-- drop of a handle; `detached` = `detach()` was called first -/
 def Sess.dropHandle (x : Sess) (id : Nat) (detached : Bool) : M Sess :=
@@ -80,12 +97,17 @@ def Sess.dropHandle (x : Sess) (id : Nat) (detached : Bool) : M Sess :=
   | none => pure x
   | some h => do
     let x := x.erase id
-    let x := if h.kind == .slot && !detached && !h.null then { x with dropCount := x.dropCount + 1 } else x
+    let x := if h.dropsValue detached then { x with dropCount := x.dropCount + 1 } else x
     let x ← (match (if detached then none else h.dropDealloc) with
       | none => pure x
       | some (off, size) => do
         let (_, st) ← dealloc x.cfg x.st off size x.fuel
         pure { x with st := st })
-    pure (if h.holdsArena then { x with refs := x.refs - 1 } else x)
+    pure (if h.holdsArena then x.decRef else x)
+
+/-- the reference count equals the number of live arena values, counting the clone inside each owned handle -/
+def Sess.refsOK (x : Sess) : Prop :=
+  x.refs = x.arenas.length + (x.handles.filter (fun p => p.2.holdsArena)).length ∧
+  x.released = (if x.refs = 0 then 1 else 0)
 
 end Rarena
